@@ -23,6 +23,7 @@ type LoopSpec struct {
 	Ordinal   int
 	Vars      []string
 	Invs      []Clause
+	Steps     []Clause // checked on every edge that ends an iteration (back edges and loop exits); iter(e) = e at iteration start
 	Decreases CExpr
 	Modifies  []CExpr // optional explicit loop frame
 }
@@ -96,6 +97,7 @@ type Contracts struct {
 	Ghosts  map[string]*Ghost
 	GInvs   []*GlobalInv
 	Lemmas  []*Lemma
+	ElemPtr   []ImmutDecl // struct types whose pointers always point into a slice's backing array (&s[i])
 	Immutable []ImmutDecl // heap components that no code writes after construction (checked by SSA scan)
 	Sources []string
 }
@@ -108,7 +110,7 @@ var clauseKeywords = map[string]bool{
 	"ghost": true, "spec": true, "global-invariant": true, "func": true, "extern": true, "iface": true,
 	"requires": true, "ensures": true, "modifies": true, "pure": true, "trusted": true, "inline": true,
 	"noinline": true, "loop": true, "invariant": true, "decreases": true, "lemma": true, "assume": true,
-	"show": true, "props": true, "loopmodifies": true, "split": true, "pureif": true, "immutable": true, "protects": true,
+	"show": true, "props": true, "loopmodifies": true, "split": true, "pureif": true, "immutable": true, "protects": true, "elemptr": true, "step": true,
 }
 
 // logical lines: keyword + rest (continuations joined)
@@ -284,6 +286,11 @@ func (cs *Contracts) LoadFile(path, pkgPath string) error {
 			}
 			cs.Specs[m[1]] = &SpecMacro{Name: m[1], Pkg: pkgPath, Params: parseSpecParams(m[2]), Ret: m[3], Body: body}
 			cur, curLoop, curLemma = nil, nil, nil
+		case "elemptr":
+			for _, f := range strings.Fields(l.rest) {
+				cs.ElemPtr = append(cs.ElemPtr, ImmutDecl{pkgPath, f})
+			}
+			cur, curLoop, curLemma = nil, nil, nil
 		case "immutable":
 			rest := strings.TrimSpace(l.rest)
 			if strings.HasPrefix(rest, "ghost ") {
@@ -343,6 +350,15 @@ func (cs *Contracts) LoadFile(path, pkgPath string) error {
 			}
 			cs.Funcs[key] = cur
 			curLoop, curLemma = nil, nil
+		case "step":
+			c, err := parseLabeled(l.rest)
+			if err != nil {
+				return fail(l, "%v", err)
+			}
+			if curLoop == nil {
+				return fail(l, "step outside loop")
+			}
+			curLoop.Steps = append(curLoop.Steps, c)
 		case "requires", "ensures", "invariant":
 			c, err := parseLabeled(l.rest)
 			if err != nil {
